@@ -172,6 +172,9 @@ package sweep
 //@   // with an immediate deadline the cap is offered at once: the relay floor has to be consulted there as well (finding F32, second
 //@   // site, known: the cap is used unchecked)
 //@   site return nil nth 0 as immediate-deadline-consults-the-relay-floor: assert called(RelayFeePerKW)
+//@   // a starting rate supplied by the caller (the rate of an earlier attempt) is position 0 of the schedule: the relay floor has to be
+//@   // consulted for it as well (finding F32, third site, known: it is used unchecked)
+//@   site return nil nth 4 as caller-start-consults-the-relay-floor: assert entry(startingFeeRate).isSome ==> called(RelayFeePerKW)
 //@   ensures  result1 == nil && confTarget > 1 ==> result0.width == confTarget - 1
 //@   ensures  result1 == nil && startingFeeRate.isSome && confTarget > 1 ==> result0.startingFeeRate == startingFeeRate.some
 //@   nowrap
